@@ -113,6 +113,11 @@ def gen_sleep(rng, tier):
         case(1, "a%d,y,p,y" % (pend * PERIOD), "u%d" % d, env_for(rng, "rr"))
     case(1, "a%d,y,p,y" % (5 * PERIOD), "s0_10000|b3", env_for(rng, "rr"))
     case(2, "a%d,y,p,y" % (6 * PERIOD), "n0_7000000|b40|b40", env_for(rng, "rand"))
+    # ---- directed: tick phase — the call is made 1 us before a tick, the poll comes right after it:
+    # a sub-millisecond request must survive that tick (sleep_ms = 1, woken only when ttc > wake_time)
+    for op in ["u999", "u1", "s0_500", "n0_999000", "u999|u999|s0_1"]:
+        case(1, "a%d,y,a1,p,y" % (PERIOD - 1), op, env_for(rng, "rr"))
+    case(2, "a%d,y,r,a1,p,y,r" % (2 * PERIOD - 1), "u700|b30|s0_999", env_for(rng, "rand"))
     # ---- directed: 32-bit arithmetic (F-C09c)
     for op in ["s4294968_0", "s4294967_296000", "s4294967_295000", "n4294967296_0", "n4294967297_500",
                "S4294968", "s4294967_294999", "n4294967295_999999999"]:
